@@ -17,6 +17,17 @@ def check(ctx):
     ex = one_config(comp, "C26")
     alloc, free, free_idx, order, clear = (need_body(ex, n, "C26", comp.site) for n in ("alloc", "free", "free_idx", "order", "clear"))
     excl.exclusive(ctx, "C26", "PreservedOrderAllocator", alloc, free, free_idx)
+    from . import ranges as _rg
+
+    for meth, d, fld in (("alloc", "o", "ident"), ("free", "i", "ident"), ("free_idx", "i", "idx"), ("order", "o", "order")):
+        _rg.ident_field_range(ctx, "C26.ident-range", comp.site, f"POA.{meth}.{fld}", comp.init_attr(meth), d, fld, "self.entries", "identifiers and positions range over the entries")
+    # the position computed by `free` and handed to free_idx is as wide as the field it is passed in
+    for mc in ex.of(MethodCall):
+        if mc.callee == ("a", ("self",), "free_idx"):
+            for k, v in mc.kwargs:
+                o_ = ex.obj(v)
+                if k == "idx" and o_ is not None:
+                    _rg.signal_range(ctx, "C26.ident-range", o_.site, "POA.free.position", o_.ctor, "self.entries", "a position among the entries")
     rf = returned_fields(order)
     used = rf.get("used")
     o = ex.obj(used) if used else None
